@@ -1476,7 +1476,7 @@ def _sweeps(run, thorough, bds):
         case = dict(dtype='float32', unit=unit, seed=8, n_rdm=4, n_cond=5, kind='pos', method='rho-a')
         sw.add(orc_promotion, case, 'rho-a,float32,large-unit')
         sw.add(orc_loo, case, 'rho-a,float32,large-unit')
-    if False:  # pending triage: cosine,int-dtype,square-overflow / cosine_cov,int-dtype,square-overflow
+    if True:   # repaired in /repo 6c46c3d0 (was pending triage): cosine,int-dtype,square-overflow / cosine_cov,int-dtype,square-overflow
         for dt, nlev in big_ints:
             for method in ('cosine', 'cosine_cov'):
                 case = dict(dtype=dt, nlev=nlev, seed=5, n_rdm=4, n_cond=5, kind='int', method=method)
@@ -1484,7 +1484,7 @@ def _sweeps(run, thorough, bds):
                 if method == 'cosine':
                     sw.add(orc_loo, case, f'{method},int-dtype,square-overflow')
                     sw.add(orc_optimal, case, f'{method},int-dtype,square-overflow')
-    if False:  # pending triage: <cosine|corr|cosine_cov|corr_cov>,float32,square-outside-float32-range
+    if True:   # repaired in /repo 6c46c3d0 (was pending triage): <cosine|corr|cosine_cov|corr_cov>,float32,square-outside-float32-range
         for unit in (-26, 20):
             for method in ORD_METHODS:
                 case = dict(dtype='float32', unit=unit, seed=8, n_rdm=4, n_cond=5, kind='pos', method=method)
